@@ -4,7 +4,8 @@
      check_lsp_annotate.go   getAllNormalAnnotateClass / getInLineAllNormalAnnotateClass / getClassTypeInfoList
                              (two guards: strMap by NAME, repeatTypeList by DEFINITION (pointer))
                              GetAllArrayType / GetAllTableType / GetAllTableKeyType (NO visited set -> fuel)
-     common/annotate_info.go GetBestCreateTypeInfo (same-file "best" definition, sort by calcCreateTypeScore)
+     common/annotate_info.go GetBestCreateTypeInfo (same-file "best" definition, sort by calcCreateTypeScore;
+                             taken alone before fix 53b8e25, taken first since)
      check_all.go            rebuidCreateTypeMap (workspace map name -> all definitions)
      annotateast             GetAllNormalStrList
      check_find_var_refer.go symbolHasSubKey / getClassListSubMem (one indexing step of a completion path)
@@ -134,22 +135,30 @@ Fixpoint defs_loop (V : visitor) (n : name) (ds : list def) (s : st) : Res (list
            Ok (fst r1 ++ fst r2, snd r2)
   end.
 
-(* getClassTypeInfoList *)
-Definition visit_body (tm : tmap) (V : visitor) : visitor := fun n f l s =>
+(* getClassTypeInfoList.
+   fx = false: the code before fix 53b8e25: when the file of the referring annotation declares the name,
+               ONLY its single "best" declaration is taken (early return), the other declarations of the workspace
+               are never looked at;
+   fx = true : the repaired code (fixes/C15-split-class.diff): the best declaration of the file only comes FIRST,
+               then every other declaration of the workspace (repeatTypeList skips the one already taken), i.e.
+               the loop of the second half runs over  best :: workspace list. *)
+Definition visit_body_v (fx : bool) (tm : tmap) (V : visitor) : visitor := fun n f l s =>
   match best tm f n l with
-  | Some d => if mem (d_id d) (s_defs s) then Ok ([], s) else one_def V n d (add_def d s)
+  | Some d =>
+      if fx then defs_loop V n (d :: global_defs tm n) s
+      else if mem (d_id d) (s_defs s) then Ok ([], s) else one_def V n d (add_def d s)
   | None => defs_loop V n (global_defs tm n) s
   end.
 
-Fixpoint visit (tm : tmap) (fuel : nat) : visitor :=
+Fixpoint visit_v (fx : bool) (tm : tmap) (fuel : nat) {struct fuel} : visitor :=
   match fuel with
   | O => fun _ _ _ _ => OutOfFuel
-  | S k => visit_body tm (visit tm k)
+  | S k => visit_body_v fx tm (visit_v fx tm k)
   end.
 
 (* getAllNormalAnnotateClass astType fileName lastLine *)
-Definition class_list (fuel : nat) (tm : tmap) (t : ty) (f l : N) : Res (list def) :=
-  do r <- names_loop (visit tm fuel) (normal_names t) f l st0; Ok (fst r).
+Definition class_list_v (fx : bool) (fuel : nat) (tm : tmap) (t : ty) (f l : N) : Res (list def) :=
+  do r <- names_loop (visit_v fx tm fuel) (normal_names t) f l st0; Ok (fst r).
 
 Definition class_fields (d : def) : list field :=
   match d_kind d with DClass _ fs => fs | DAlias _ => [] end.
@@ -160,8 +169,17 @@ Definition member_names (o : list def) : list name := flat_map (fun d => map f_n
 (* fuel that C15_terminates shows sufficient *)
 Definition fuel_of (tm : tmap) : nat := S (length tm).
 
-Definition model_members (tm : tmap) (t : ty) (f l : N) : list name :=
-  match class_list (fuel_of tm) tm t f l with Ok o => member_names o | _ => [] end.
+Definition model_members_v (fx : bool) (tm : tmap) (t : ty) (f l : N) : list name :=
+  match class_list_v fx (fuel_of tm) tm t f l with Ok o => member_names o | _ => [] end.
+
+(* Which lookup the DECIDING model has: true = the repaired code (fix 53b8e25 applied to /repo),
+   false = the code before it.  Everything below (completion paths, definition) is built on the deployed variant. *)
+Definition c15_split_fixed : bool := true.
+
+Definition visit_body : tmap -> visitor -> visitor := visit_body_v c15_split_fixed.
+Definition visit : tmap -> nat -> visitor := visit_v c15_split_fixed.
+Definition class_list : nat -> tmap -> ty -> N -> N -> Res (list def) := class_list_v c15_split_fixed.
+Definition model_members : tmap -> ty -> N -> N -> list name := model_members_v c15_split_fixed.
 
 (* ---------- element / value / key type through aliases: NO visited set in the code ---------- *)
 
